@@ -142,7 +142,7 @@ static void vf_check_failed(const char *msg)
 #define VF_MAXLANE 2
 #define VF_MAXSTEP 400
 #define VF_MAXKEYS 200000
-static struct vf_key { short lane, k, s, u, c, v, i, t; } vf_keys[VF_MAXKEYS];
+static struct vf_key { short lane, k, s, u, c, v, i, t, uc, uv, ui; } vf_keys[VF_MAXKEYS];
 static int vf_nkeys;
 static unsigned vf_keyhash[1 << 20];
 static int vf_hint_on = 1;
@@ -168,6 +168,17 @@ static void vf_key_of(struct cat_object *at, struct vf_key *key)
         }
         if (vf_state_uses_index(key->s))
                 key->i = (at->index < 64) ? (short)at->index : -2;
+        key->uc = -3; key->uv = -3; key->ui = -3;
+        if (key->u != CAT_UNSOLICITED_STATE_IDLE) {
+                key->uc = (short)VF_CMDIDX(at->unsolicited_fsm.cmd);
+                if ((key->u == CAT_UNSOLICITED_STATE_FORMAT_READ_ARGS || key->u == CAT_UNSOLICITED_STATE_FORMAT_TEST_ARGS) && key->uc >= 0) {
+                        const struct cat_variable *ub = at->unsolicited_fsm.cmd->var;
+                        if (at->unsolicited_fsm.var == NULL) key->uv = -1;
+                        else if (ub != NULL && at->unsolicited_fsm.var >= ub && at->unsolicited_fsm.var < ub + at->unsolicited_fsm.cmd->var_num) key->uv = (short)(at->unsolicited_fsm.var - ub);
+                        else key->uv = -2;
+                        key->ui = (at->unsolicited_fsm.index < 64) ? (short)at->unsolicited_fsm.index : -2;
+                }
+        }
         key->t = -3;
         if (key->s == CAT_STATE_PRINT_CMD)
                 key->t = ((int)at->cmd_type >= -1 && (int)at->cmd_type <= 4) ? (short)at->cmd_type : -2;
@@ -180,7 +191,7 @@ static void vf_record(int lane, int k, struct cat_object *at)
         vf_key_of(at, &key);
         key.lane = (short)lane;
         key.k = (short)k;
-        h = (unsigned)(lane * 7919 + k * 104729 + key.s * 1299709 + key.u * 15485863 + key.c * 32452843 + key.v * 49979687 + key.i * 67867967 + key.t * 86028121);
+        h = (unsigned)(lane * 7919 + k * 104729 + key.s * 1299709 + key.u * 15485863 + key.c * 32452843 + key.v * 49979687 + key.i * 67867967 + key.t * 86028121 + key.uc * 982451653 + key.uv * 472882027 + key.ui * 573259391);
         for (j = 0; j < 64; j++) {
                 unsigned slot = (h + j * 2654435761u) & ((1u << 20) - 1);
                 unsigned e = vf_keyhash[slot];
@@ -200,7 +211,7 @@ static cat_status hinted_service(int lane, int k, struct cat_object *at)
         if (vf_verbose) {
                 struct vf_key key;
                 vf_key_of(at, &key);
-                printf("STEP lane=%d k=%d state=%d ustate=%d cmd=%d var=%d index=%d type=%d\n", lane, k, key.s, key.u, key.c, key.v, key.i, key.t);
+                printf("STEP lane=%d k=%d state=%d ustate=%d cmd=%d var=%d index=%d type=%d ucmd=%d uvar=%d uindex=%d\n", lane, k, key.s, key.u, key.c, key.v, key.i, key.t, key.uc, key.uv, key.ui);
         }
         return cat_service(at);
 }
@@ -302,7 +313,7 @@ int main(int argc, char **argv)
                         }
                 }
                 for (k = 0; k < vf_nkeys; k++)
-                        printf("H %d %d %d %d %d %d %d %d\n", vf_keys[k].lane, vf_keys[k].k, vf_keys[k].s, vf_keys[k].u, vf_keys[k].c, vf_keys[k].v, vf_keys[k].i, vf_keys[k].t);
+                        printf("H %d %d %d %d %d %d %d %d %d %d %d\n", vf_keys[k].lane, vf_keys[k].k, vf_keys[k].s, vf_keys[k].u, vf_keys[k].c, vf_keys[k].v, vf_keys[k].i, vf_keys[k].t, vf_keys[k].uc, vf_keys[k].uv, vf_keys[k].ui);
                 return 0;
         }
         if (argc >= 4 && strcmp(argv[1], "--sample") == 0) {
@@ -337,7 +348,7 @@ int main(int argc, char **argv)
                         }
                 }
                 for (k = 0; k < vf_nkeys; k++)
-                        printf("H %d %d %d %d %d %d %d %d\n", vf_keys[k].lane, vf_keys[k].k, vf_keys[k].s, vf_keys[k].u, vf_keys[k].c, vf_keys[k].v, vf_keys[k].i, vf_keys[k].t);
+                        printf("H %d %d %d %d %d %d %d %d %d %d %d\n", vf_keys[k].lane, vf_keys[k].k, vf_keys[k].s, vf_keys[k].u, vf_keys[k].c, vf_keys[k].v, vf_keys[k].i, vf_keys[k].t, vf_keys[k].uc, vf_keys[k].uv, vf_keys[k].ui);
                 for (k = 0; k < vf_wn; k++)
                         printf("W %s %ld\n", vf_wname[k], vf_wcount[k]);
                 printf("SAMPLES total=%ld valid=%ld invalid=%ld crashed=%ld checkfail=%ld\n", n, valid, invalid, crashed, failed);
